@@ -366,9 +366,14 @@ def insertBreak (v : Veh) (moved : Option (Nat × TW)) (rtw : TW) (ov : Int) (br
   let acts2 := acts1.zipIdx.map (fun x => if x.2 == breakIdx then x.1 else stretch rtw x.1)
   ({ stop with activities := sortByTime acts2 }, stat2)
 
+/-- how much of the reserved time falls into the waiting window of an activity -/
+def ovOf (rtw : TW) (a : RAct) : Int :=
+  match twOverlap (a.arr, a.tws) rtw with
+  | some o => o.2 - o.1
+  | none => 0
+
 def waitingOverlap (acts : List RAct) (rtw : TW) (dur : Int) : Int :=
-  min ((acts.filter (fun a => decide (a.arr < a.tws))).foldl
-        (fun acc a => acc + (match twOverlap (a.arr, a.tws) rtw with | some o => o.2 - o.1 | none => 0)) 0) dur
+  min ((acts.filter (fun a => decide (a.arr < a.tws))).foldl (fun acc a => acc + ovOf rtw a) 0) dur
 
 /-- what the scan over the legs finds: `inl` = break moved to the end of the previous stop, `inr` = transit stop needed -/
 def findLeg (stops : List XStop) (rstart : Int) (rtw : TW) : Option (Sum (Nat × TW) (Nat × List Int)) :=
@@ -378,10 +383,8 @@ def findLeg (stops : List XStop) (rstart : Int) (rtw : TW) : Option (Sum (Nat ×
       some (if rstart < travel.1 then Sum.inl (x.2, (travel.1 - (rtw.2 - rtw.1), travel.1)) else Sum.inr (x.2, x.1.1.load))
     else none)
 
-def insertOneReserved (v : Veh) (acts : List RAct) (shift : TW) (t : XTour) (r : Reserved) : XTour :=
-  let rs := if r.offset then shift.1 + r.start else r.start
-  let re := if r.offset then shift.1 + r.stop else r.stop
-  let rtw : TW := (re, re + r.dur)
+/-- one reserved time, already resolved to its window `rtw` (latest start .. latest start + duration) and earliest start `rs` -/
+def insertReservedAt (v : Veh) (acts : List RAct) (shift : TW) (t : XTour) (rs : Int) (rtw : TW) (dur : Int) : XTour :=
   if !twIntersectsX shift rtw then t else
   let info := findLeg t.stops rs rtw
   let stops1 := match info with
@@ -391,13 +394,18 @@ def insertOneReserved (v : Veh) (acts : List RAct) (shift : TW) (t : XTour) (r :
   let moved : Option (Nat × TW) := match info with
     | some (Sum.inl m) => some m
     | _ => none
-  let ov := waitingOverlap acts rtw r.dur
+  let ov := waitingOverlap acts rtw dur
   let res := stops1.zipIdx.foldl (fun (acc : List XStop × WStat) x =>
     if twIntersectsX (x.1.arrival, x.1.departure) rtw then
-      let (s', st') := insertBreak v moved rtw ov r.dur x.2 x.1 acc.2
+      let (s', st') := insertBreak v moved rtw ov dur x.2 x.1 acc.2
       (acc.1 ++ [s'], st')
     else (acc.1 ++ [x.1], acc.2)) ([], t.stat)
-  { stops := res.1, stat := { res.2 with breakT := res.2.breakT + r.dur } }
+  { stops := res.1, stat := { res.2 with breakT := res.2.breakT + dur } }
+
+def insertOneReserved (v : Veh) (acts : List RAct) (shift : TW) (t : XTour) (r : Reserved) : XTour :=
+  let rs := if r.offset then shift.1 + r.start else r.start
+  let re := if r.offset then shift.1 + r.stop else r.stop
+  insertReservedAt v acts shift t rs (re, re + r.dur) r.dur
 
 def insertBreaks (v : Veh) (acts : List RAct) (openEnd : Bool) (rs : List Reserved) (t : XTour) : XTour :=
   match acts.head?, acts.getLast? with
